@@ -39,6 +39,7 @@ var errNames = []string{"sentinel", "permdenied"}
 
 type ftask struct {
 	Prefix []int
+	Handle bool // handle programmes (expandHandle) instead of one level of the history tree
 	Quit   bool
 }
 
@@ -61,6 +62,9 @@ type freply struct {
 	Histories  int
 	NA         int
 	FaultRuns  int
+	HProgs     int // handle programmes: fault-free executions open;[pre];F
+	HRuns      int // handle programmes: executions open;[pre];F fails;G;Close
+	HFollowed  int // of those: the twin followed up to the end (handle state compared after every call)
 	BasePanics int
 	Covered    map[int]int
 	Injected   map[int]int
@@ -96,7 +100,14 @@ func serveFault(base string) {
 			return
 		}
 
-		r := expandFault(ok, ft, t.Prefix)
+		var r freply
+
+		if t.Handle {
+			r = expandHandle(ok, ft, t.Prefix)
+		} else {
+			r = expandFault(ok, ft, t.Prefix)
+		}
+
 		if err := out.Encode(&r); err != nil {
 			return
 		}
@@ -457,6 +468,292 @@ func expandFault(ok, ft *sys, prefix []int) (r freply) {
 	return r
 }
 
+// ---------------------------------------------------------------------------
+// Handle programmes: "an injected failure has no effect" on the state of a
+// handle. The history tree above reaches a File method that is made to fail
+// only as the LAST call of a history of length 2 (open; F), so nothing is ever
+// done with the handle afterwards. Here, for one opening prefix
+// (open, or Sub;open, optionally followed by one File call "pre" that moves the
+// handle out of its initial state), for EVERY File method F of the alphabet,
+// every consultation k of F and every error E:
+//
+//	prefix; F with consultation k returning E; G; Close
+//
+// for EVERY File method G of the alphabet (one execution per G on a fresh
+// instance; for G = Close the final Close is the "closed twice" case and is
+// applied as well). The failure function lets everything but consultation k
+// through. Oracle: stepFault - the twin base handle, on which F was not
+// executed, answers G and Close exactly as the FailFile does, and the base
+// states stay equal.
+
+// handleLetters returns the letters that make up the handle programmes of
+// slot 0: opening prefixes, File methods, and the index of Close.
+func handleLetters(s *sys, pres []string) (prefixes [][]int, fileOps []int, closeOp int) {
+	closeOp = -1
+
+	var opens [][]int
+
+	subRoot := -1
+
+	for i, o := range s.ops {
+		if o.Store == "sub" && o.C.A == "/" {
+			subRoot = i
+		}
+	}
+
+	for i, o := range s.ops {
+		switch {
+		case o.Thru == "file" && o.Slot == 0:
+			fileOps = append(fileOps, i)
+
+			if o.C.Op == "Close" {
+				closeOp = i
+			}
+		case o.Store == "file" && o.Slot == 0 && o.Thru == "failfs":
+			opens = append(opens, []int{i})
+		case o.Store == "file" && o.Slot == 0 && o.Thru == "sub" && subRoot >= 0:
+			opens = append(opens, []int{subRoot, i})
+		}
+	}
+
+	for _, op := range opens {
+		prefixes = append(prefixes, op)
+
+		for _, f := range fileOps {
+			for _, p := range pres {
+				if p == "*" || p == fileCallString(s.ops[f].C) {
+					prefixes = append(prefixes, append(append([]int{}, op...), f))
+
+					break
+				}
+			}
+		}
+	}
+
+	return prefixes, fileOps, closeOp
+}
+
+func expandHandle(ok, ft *sys, prefix []int) (r freply) {
+	r.Covered, r.Injected, r.Invoked = map[int]int{}, map[int]int{}, map[int]bool{}
+	r.Classes, r.Outcomes, r.TraceLens = map[string]int{}, map[string]int{}, map[int]int{}
+
+	book := &violBook{m: map[string]*fviol{}}
+
+	defer func() {
+		for _, k := range book.order {
+			r.Viols = append(r.Viols, *book.m[k])
+		}
+	}()
+
+	_, fileOps, closeOp := handleLetters(ok, nil)
+
+	replayPrefix := func() error {
+		if err := ok.Reset(); err != nil {
+			return err
+		}
+
+		for _, p := range prefix {
+			ok.Step(p)
+		}
+
+		return nil
+	}
+
+	if err := replayPrefix(); err != nil {
+		r.Err = err.Error()
+
+		return
+	}
+
+	if ok.impl.files[0] == nil {
+		r.NA++ // the opening call does not succeed from the initial state: no handle, no programme
+
+		return
+	}
+
+	baseKey := ok.Key()
+	plen := len(ok.trace)
+
+	type pv struct {
+		sig    map[string]string
+		detail string
+	}
+
+	for _, f := range fileOps {
+		ok.trace = ok.trace[:plen]
+		ok.nsteps = len(prefix)
+
+		sr := ok.Step(f)
+		if sr.Outcome == "n/a" {
+			continue
+		}
+
+		r.HProgs++
+		r.Outcomes[sr.Outcome]++
+
+		full := append([]consRec{}, ok.trace...)
+		histF := append(append([]int{}, prefix...), f)
+		freeRes := ok.lastRender
+
+		for _, v := range sr.Viols {
+			v := v
+			book.add(v.Sig, func() any {
+				return map[string]any{
+					"system": ok.baseName, "plan": "okfunc", "history": histStrings(ok, histF),
+					"trace": traceStrings(full), "result_of_last_call": freeRes, "detail": v.Detail,
+				}
+			})
+		}
+
+		if sr.Changed || sr.Broken || sr.Rebuild {
+			if err := replayPrefix(); err != nil {
+				r.Err = err.Error()
+
+				return
+			}
+
+			if k := ok.Key(); k != baseKey {
+				r.Err = fmt.Sprintf("replay divergence: prefix %v reached a different state on re-execution", histStrings(ok, prefix))
+
+				return
+			}
+		}
+
+		for k := plen; k < len(full); k++ {
+			for _, en := range errNames {
+				var (
+					presults []string
+					poisoned bool
+				)
+
+				// fresh instances; prefix; F with consultation k returning E
+				setup := func(collect *[]pv) error {
+					presults, poisoned = presults[:0], false
+
+					if err := ft.resetFault(k, en); err != nil {
+						return err
+					}
+
+					for _, p := range histF {
+						fr := ft.Step(p)
+						presults = append(presults, ft.lastRender)
+
+						if collect != nil {
+							for _, v := range fr.Viols {
+								*collect = append(*collect, pv{v.Sig, v.Detail})
+							}
+						}
+
+						if fr.Rebuild {
+							poisoned = true
+
+							break
+						}
+					}
+
+					if !ft.fired || len(ft.trace) <= k || !sameCons(ft.trace[:k+1], full[:k+1]) {
+						return fmt.Errorf("replay diverged: handle programme %v plan k=%d %s: fired=%v trace %v, fault-free trace %v",
+							histStrings(ok, histF), k, en, ft.fired, traceStrings(ft.trace), traceStrings(full))
+					}
+
+					return nil
+				}
+
+				plan := map[string]any{"k": k, "fn": full[k].Fn.String(), "params": full[k].P, "during_call": full[k].Call, "part": full[k].Part, "err": en}
+				first := true
+
+				for _, g := range fileOps {
+					var pviols []pv
+
+					collect := &pviols
+					if !first {
+						collect = nil // the violations of prefix;F were booked with the first G
+					}
+
+					if err := setup(collect); err != nil {
+						r.Err = err.Error()
+
+						return
+					}
+
+					if first {
+						first = false
+
+						for _, v := range pviols {
+							v := v
+							pres := append([]string{}, presults...)
+							book.add(v.sig, func() any {
+								return map[string]any{
+									"system": ok.baseName, "plan": "fault", "history": histStrings(ok, histF), "fault": plan,
+									"fault_free_trace": traceStrings(full), "results": pres, "detail": v.detail,
+								}
+							})
+						}
+					}
+
+					if poisoned {
+						break // prefix;F ended in a panic/deadlock (reported above): nothing can follow
+					}
+
+					hist := append([]int{}, histF...)
+					res := append([]string{}, presults...)
+
+					for _, c := range []int{g, closeOp} {
+						if c < 0 {
+							continue
+						}
+
+						hist = append(hist, c)
+
+						fr := ft.Step(c)
+						res = append(res, ft.lastRender)
+
+						for _, v := range fr.Viols {
+							v := v
+							h, rs, faulted := append([]int{}, hist...), append([]string{}, res...), traceStrings(ft.trace)
+							book.add(v.Sig, func() any {
+								return map[string]any{
+									"system": ok.baseName, "plan": "fault", "history": histStrings(ok, h), "fault": plan,
+									"fault_free_trace": traceStrings(full), "faulted_trace": faulted,
+									"results": rs, "detail": v.Detail,
+								}
+							})
+						}
+
+						if fr.Rebuild {
+							break
+						}
+					}
+
+					r.HRuns++
+					r.FaultRuns++
+					r.BasePanics += ft.basePanics
+					ft.basePanics = 0
+					r.Injected[int(full[k].Fn)]++
+
+					if ft.twin != nil && !ft.twinOff {
+						r.HFollowed++
+					}
+
+					if ft.faultClass != "" {
+						r.Classes[ft.faultClass]++
+					}
+
+					if len(r.Samples) < 1 && ok.ops[f].C.Op == "Close" && ok.ops[g].C.Op == "Write" {
+						b, _ := json.Marshal(map[string]any{
+							"system": ok.baseName, "history": histStrings(ok, hist), "fault": plan, "results": res,
+							"class": ft.faultClass, "twin_followed_to_the_end": ft.twin != nil && !ft.twinOff,
+						})
+						r.Samples = append(r.Samples, b)
+					}
+				}
+			}
+		}
+	}
+
+	return r
+}
+
 func sameCons(a, b []consRec) bool {
 	if len(a) != len(b) {
 		return false
@@ -557,6 +854,11 @@ type faultEngine struct {
 	NA         int    `json:"letters_not_applicable"`
 	FaultFree  int    `json:"fault_free_runs"`
 	FaultRuns  int    `json:"single_fault_runs"`
+	HPrefixes  int    `json:"handle_programme_prefixes"`
+	HProgs     int    `json:"handle_programmes_fault_free_runs"`
+	HRuns      int    `json:"handle_programmes_single_fault_runs"`
+	HFollowed  int    `json:"handle_programmes_twin_followed_to_the_end"`
+	HPartial   string `json:"handle_programmes_partial,omitempty"`
 	BasePanics int    `json:"panics_inside_the_base_after_a_fault_not_attributed"`
 	Crashes    int    `json:"worker_crashes"`
 	HarnessErr string `json:"harness_error,omitempty"`
@@ -582,24 +884,22 @@ func (fe *faultEngine) workLeft() float64 {
 	return float64(len(fe.frontier)) * float64(fe.probe.NumOps())
 }
 
-// runLevel executes all histories of length level+1 (every prefix of the
-// frontier extended by every letter, with all their single-fault plans).
-func (fe *faultEngine) runLevel(deadline time.Time, report func(sig map[string]string, replay any, count int)) {
-	if len(fe.frontier) == 0 || fe.HarnessErr != "" || !fe.Exhaustive {
-		return
-	}
-
+// runPool hands the tasks to one worker subprocess per CPU and merges the
+// replies (counters, violations) in; each(task index, reply) sees every reply
+// under the lock. It returns how many tasks were handed out and whether the
+// deadline cut the list short.
+func (fe *faultEngine) runPool(tasks []ftask, deadline time.Time, report func(sig map[string]string, replay any, count int),
+	each func(i int, r *freply),
+) (handed int, aborted bool) {
 	var (
-		mu      sync.Mutex
-		wg      sync.WaitGroup
-		idx     int
-		next    [][]int
-		aborted bool
+		mu  sync.Mutex
+		wg  sync.WaitGroup
+		idx int
 	)
 
 	nw := runtime.NumCPU()
-	if nw > len(fe.frontier) {
-		nw = len(fe.frontier)
+	if nw > len(tasks) {
+		nw = len(tasks)
 	}
 
 	for wi := 0; wi < nw; wi++ {
@@ -622,8 +922,8 @@ func (fe *faultEngine) runLevel(deadline time.Time, report func(sig map[string]s
 			for {
 				mu.Lock()
 
-				if idx >= len(fe.frontier) || fe.HarnessErr != "" || (!deadline.IsZero() && time.Now().After(deadline)) {
-					if idx < len(fe.frontier) {
+				if idx >= len(tasks) || fe.HarnessErr != "" || (!deadline.IsZero() && time.Now().After(deadline)) {
+					if idx < len(tasks) {
 						aborted = true
 					}
 
@@ -632,16 +932,16 @@ func (fe *faultEngine) runLevel(deadline time.Time, report func(sig map[string]s
 					return
 				}
 
-				prefix := fe.frontier[idx]
+				ti := idx
 				idx++
 				mu.Unlock()
 
-				r, err := w.do(ftask{Prefix: prefix})
+				r, err := w.do(tasks[ti])
 				if err != nil {
 					mu.Lock()
 					fe.Crashes++
 					report(map[string]string{"base": fe.Base, "plan": "fault", "kind": "worker-crash"},
-						map[string]any{"system": fe.Base, "prefix": histStrings(fe.probe, prefix), "detail": "worker process died while enumerating the histories with this prefix: " + err.Error()}, 1)
+						map[string]any{"system": fe.Base, "prefix": histStrings(fe.probe, tasks[ti].Prefix), "detail": "worker process died while enumerating the histories with this prefix: " + err.Error()}, 1)
 					mu.Unlock()
 
 					_ = w.cmd.Process.Kill()
@@ -667,15 +967,13 @@ func (fe *faultEngine) runLevel(deadline time.Time, report func(sig map[string]s
 					return
 				}
 
-				if len(fe.seen) == 0 {
-					fe.seen[r.InitKey] = true
-					fe.States++
-				}
-
 				fe.Histories += r.Histories
 				fe.FaultFree += r.Histories
 				fe.NA += r.NA
 				fe.FaultRuns += r.FaultRuns
+				fe.HProgs += r.HProgs
+				fe.HRuns += r.HRuns
+				fe.HFollowed += r.HFollowed
 				fe.BasePanics += r.BasePanics
 
 				for k, n := range r.Covered {
@@ -706,24 +1004,7 @@ func (fe *faultEngine) runLevel(deadline time.Time, report func(sig map[string]s
 					report(v.Sig, json.RawMessage(v.Replay), v.Count)
 				}
 
-				for _, sm := range r.Samples {
-					if len(fe.Samples) < 4 {
-						fe.Samples = append(fe.Samples, json.RawMessage(sm))
-					}
-				}
-
-				for _, sc := range r.Succ {
-					if fe.seen[sc.Key] {
-						continue
-					}
-
-					fe.seen[sc.Key] = true
-					fe.States++
-
-					if !sc.Broken {
-						next = append(next, append(append([]int{}, prefix...), sc.Op))
-					}
-				}
+				each(ti, &r)
 
 				mu.Unlock()
 			}
@@ -731,6 +1012,49 @@ func (fe *faultEngine) runLevel(deadline time.Time, report func(sig map[string]s
 	}
 
 	wg.Wait()
+
+	return idx, aborted
+}
+
+// runLevel executes all histories of length level+1 (every prefix of the
+// frontier extended by every letter, with all their single-fault plans).
+func (fe *faultEngine) runLevel(deadline time.Time, report func(sig map[string]string, replay any, count int)) {
+	if len(fe.frontier) == 0 || fe.HarnessErr != "" || !fe.Exhaustive {
+		return
+	}
+
+	var next [][]int
+
+	tasks := make([]ftask, len(fe.frontier))
+	for i, p := range fe.frontier {
+		tasks[i] = ftask{Prefix: p}
+	}
+
+	idx, aborted := fe.runPool(tasks, deadline, report, func(i int, r *freply) {
+		if len(fe.seen) == 0 {
+			fe.seen[r.InitKey] = true
+			fe.States++
+		}
+
+		for _, sm := range r.Samples {
+			if len(fe.Samples) < 4 {
+				fe.Samples = append(fe.Samples, json.RawMessage(sm))
+			}
+		}
+
+		for _, sc := range r.Succ {
+			if fe.seen[sc.Key] {
+				continue
+			}
+
+			fe.seen[sc.Key] = true
+			fe.States++
+
+			if !sc.Broken {
+				next = append(next, append(append([]int{}, tasks[i].Prefix...), sc.Op))
+			}
+		}
+	})
 
 	if fe.HarnessErr != "" {
 		fe.Exhaustive = false
@@ -760,4 +1084,48 @@ func (fe *faultEngine) runLevel(deadline time.Time, report func(sig map[string]s
 	})
 
 	fe.frontier = next
+}
+
+// runHandle executes the handle programmes (expandHandle) of every opening
+// prefix: pool opens of slot 0 (directly and through Sub("/")), alone and
+// followed by each File call listed in pres ("*": all of them).
+func (fe *faultEngine) runHandle(pres []string, deadline time.Time, report func(sig map[string]string, replay any, count int)) {
+	if fe.HarnessErr != "" {
+		return
+	}
+
+	prefixes, _, _ := handleLetters(fe.probe, pres)
+
+	tasks := make([]ftask, len(prefixes))
+	for i, p := range prefixes {
+		tasks[i] = ftask{Prefix: p, Handle: true}
+	}
+
+	var (
+		hsample json.RawMessage
+		hfrom   int
+	)
+
+	idx, aborted := fe.runPool(tasks, deadline, report, func(i int, r *freply) {
+		if len(r.Samples) > 0 && (hsample == nil || i < hfrom) {
+			hsample, hfrom = json.RawMessage(r.Samples[0]), i // lowest task: the same choice whatever the order of the replies
+		}
+	})
+
+	fe.HPrefixes = len(prefixes)
+
+	if hsample != nil {
+		fe.Samples = append(fe.Samples, hsample)
+	}
+
+	if fe.HarnessErr != "" {
+		fe.Exhaustive = false
+
+		return
+	}
+
+	if aborted {
+		fe.Exhaustive = false
+		fe.HPartial = fmt.Sprintf("%d of %d opening prefixes done when the budget ended", idx, len(prefixes))
+	}
 }
